@@ -53,6 +53,7 @@ func run(r *common.Run) error {
 		case "fuzz":
 			c.corpus()
 			c.paged()
+			c.sizes()
 			c.systematic()
 			c.random()
 		case "scen":
@@ -436,6 +437,96 @@ func (c *ctx) paged() {
 		`<fin xmlns="urn:xmpp:mam:2" complete="true">` + rsmSet("", "", true) + `</fin>`,
 	} {
 		c.helperp(hf, "result", []string{fin, fin}, "paged")
+	}
+}
+
+// sizeList: peer-input sizes that straddle the buffers and limits of the code (4 KiB bufio,
+// 64 KiB block size / uint16, the 256 KiB ibb read buffer, 1 MiB).
+func (c *ctx) sizeList() []int {
+	if c.r.Quick() {
+		return []int{0, 1, 4097, 65535, 65536, 65537, 98304, 262145, 1 << 20}
+	}
+	return []int{0, 1, 4095, 4096, 4097, 65534, 65535, 65536, 65537, 98304, 196608, 262143, 262144, 262145, 1 << 20}
+}
+
+// sized returns copies of the tree in which one peer-controlled datum has the given size: the
+// first text node (character data of that size; created in the innermost first element if
+// the template has none) and the first attribute of the payload element.
+func sized(root *node, n int) []*node {
+	var out []*node
+	blob := strings.Repeat("A", n)
+	// text
+	t := root.clone()
+	var setText func(e *node) bool
+	setText = func(e *node) bool {
+		for _, ch := range e.children {
+			if ch.kind == nText {
+				ch.text = blob
+				return true
+			}
+		}
+		for _, ch := range e.children {
+			if ch.kind == nElem && setText(ch) {
+				return true
+			}
+		}
+		return false
+	}
+	if !setText(t) {
+		es := t.elems()
+		deepest := es[len(es)-1]
+		deepest.children = append(deepest.children, &node{kind: nText, text: blob})
+	}
+	out = append(out, t)
+	// attribute of the payload element (second element of the tree, if any)
+	a := root.clone()
+	if es := a.elems(); len(es) > 1 {
+		e := es[1]
+		if len(e.attrs) > 0 {
+			e.attrs[0][1] = blob
+		} else {
+			e.attrs = append(e.attrs, [2]string{"id", blob})
+		}
+		out = append(out, a)
+	}
+	return out
+}
+
+// sizes: payload / attribute / text size as a generator dimension for every handler and every
+// helper, and for data packets of an open ibb stream.
+func (c *ctx) sizes() {
+	c.r.Mark("case sizes")
+	for _, seqT := range stanzaTemplates {
+		for i := range seqT {
+			root := parse(seqT[i])
+			for _, n := range c.sizeList() {
+				for _, m := range sized(root, n) {
+					parts := make([]string, len(seqT))
+					for j := range seqT {
+						parts[j] = parse(seqT[j]).String()
+					}
+					parts[i] = m.String()
+					c.serve(strings.Join(parts, ""), "size")
+				}
+			}
+		}
+	}
+	for _, h := range helpers {
+		for _, t := range h.templates {
+			if t == "" {
+				continue
+			}
+			root := parse("<w xmlns=\"jabber:client\">" + t + "</w>")
+			for _, n := range c.sizeList() {
+				for _, m := range sized(root, n) {
+					var b strings.Builder
+					for _, ch := range m.children {
+						ch.write(&b, "jabber:client")
+					}
+					c.helper(h, "result", b.String(), "size")
+				}
+			}
+		}
 	}
 }
 
